@@ -828,15 +828,19 @@ func opHandlerBind(env *LEnv, args *LVal) *LVal {
 				// even if a Go panic propagates through the handler.
 				env.Runtime.PushCondition(val)
 				defer env.Runtime.PopCondition()
-				expr := []*LVal{hval, Quote(Symbol(val.Str))}
-				expr = append(expr, val.Copy().Cells...)
-				// The handler call is located at the handler expression of
-				// the binding: a handler that rejects the condition's
-				// arguments is reported there, not at <native code> or at an
-				// unrelated enclosing call.
-				call := SExpr(expr)
-				call.source = handler.source
-				return env.Eval(call)
+				// The handler is CALLED with the condition name and the error
+				// data; it is not applied by evaluating a call form built
+				// from them.  Evaluating such a form evaluated the data a
+				// second time: (error 'x (car '(foo))) carries the symbol foo,
+				// and the handler call then failed with "unbound symbol: foo".
+				hargs := []*LVal{Quote(Symbol(val.Str))}
+				hargs = append(hargs, val.Copy().Cells...)
+				// The call is located at the handler expression of the
+				// binding: a handler that rejects the condition's arguments is
+				// reported there, not at <native code> or at an unrelated
+				// enclosing call.
+				env.loc = handler.source
+				return env.FunCall(hval, SExpr(hargs))
 			}
 			return val
 		}
